@@ -102,8 +102,9 @@ type lfOp struct {
 	cost  int
 	// enabled: additional precondition (beyond "not started yet").
 	enabled func(w *lfWorld) bool
-	// touches: actors on which the operation may synchronously take the stop lock.
-	touches func(w *lfWorld) []*PID
+	// touches: names of the actors whose Shutdown the operation may call synchronously ("?name": only
+	// when that actor is running or suspended at that moment, as for Tell/Stop(child)/Restart).
+	touches []string
 	run     func(w *lfWorld) string
 	// after runs on the client goroutine immediately after run returned.
 	after func(w *lfWorld, op *lfOp) []vsched.Violation
@@ -133,6 +134,8 @@ type lfWorld struct {
 	afterStep func()
 	// pids of interest (actors whose stop lock matters), maintained by the scenario.
 	track map[string]*PID
+	// children: static parent -> children relation of the scenario (tracked names).
+	children map[string][]string
 	// riskyPending: per actor name, accepted messages with a lock-taking action whose handler has
 	// not started yet.
 	riskyPending map[string]int
@@ -252,6 +255,37 @@ func (w *lfWorld) wait(a *lfActor, hook, msg string, risky bool) {
 	w.gates = append(w.gates, g)
 	w.mu.Unlock()
 	<-g.ch
+}
+
+// waitNamed blocks on a gate that does not belong to a test actor hook (e.g. the death watch).
+func (w *lfWorld) waitNamed(hook, label string) {
+	w.mu.Lock()
+	gp := w.gatePolicy
+	w.mu.Unlock()
+	if gp == nil || !gp(nil, hook, label) {
+		return
+	}
+	w.mu.Lock()
+	w.seq++
+	g := &lfGate{hook: hook, msg: label, seq: w.seq, ch: make(chan struct{})}
+	g.label = hook + "(" + label + ")"
+	w.gates = append(w.gates, g)
+	w.mu.Unlock()
+	<-g.ch
+}
+
+// wrapDeathWatch lets the harness control when the system death watch handles Terminated(x), i.e.
+// when a stopped actor is removed from the tree and the actor counter is decremented. The real
+// handler runs unchanged after the gate. Gate hook "dw", label = actor name; policy gets a nil actor.
+func (w *lfWorld) wrapDeathWatch() {
+	dw := w.sys.getDeathWatch()
+	real := dw.actor
+	dw.setBehavior(func(ctx *ReceiveContext) {
+		if t, ok := ctx.Message().(*Terminated); ok {
+			w.waitNamed("dw", t.ActorPath().Name())
+		}
+		real.Receive(ctx)
+	})
 }
 
 func (w *lfWorld) release(g *lfGate) {
@@ -436,25 +470,42 @@ func (w *lfWorld) pid(name string) *PID {
 	return w.track[name]
 }
 
-// subtreeLockHeld: pid's or one of its tracked descendants' stop lock is held. Descendants are
-// determined by address prefix (the harness names are unique), not through the tree, so that tree
-// bookkeeping defects cannot hide a held lock.
-func (w *lfWorld) subtreeLockHeld(pid *PID) bool {
+// wouldBlock predicts whether Shutdown(name) would wait for a stop lock that is currently held by a
+// goroutine parked on a gate. It mirrors Shutdown/freeChildren: the target's own lock is taken
+// unconditionally; a child is only shut down (recursively) when it is running or suspended — a child
+// whose stop is already in progress is skipped by freeChildren, so it cannot block the caller.
+func (w *lfWorld) wouldBlock(name string) bool {
+	pid := w.pid(name)
 	if pid == nil {
 		return false
 	}
-	base := pid.ID()
-	for _, p := range w.trackedPIDs() {
-		if p == nil {
+	if lfLockHeld(pid) {
+		return true
+	}
+	w.mu.Lock()
+	cs := append([]string(nil), w.children[name]...)
+	w.mu.Unlock()
+	for _, c := range cs {
+		cp := w.pid(c)
+		if cp == nil {
 			continue
 		}
-		if p == pid || strings.HasPrefix(p.ID(), base+"/") {
-			if lfLockHeld(p) {
+		if cp.IsRunning() || cp.IsSuspended() {
+			if w.wouldBlock(c) {
 				return true
 			}
 		}
 	}
 	return false
+}
+
+func (w *lfWorld) addChild(parent, child string) {
+	w.mu.Lock()
+	if w.children == nil {
+		w.children = map[string][]string{}
+	}
+	w.children[parent] = append(w.children[parent], child)
+	w.mu.Unlock()
 }
 
 type lfEvent struct {
@@ -472,12 +523,14 @@ func (w *lfWorld) startOp(op *lfOp) {
 		w.logEv(lfEv{kind: lfOpStart, op: op.idx})
 		res := op.run(w)
 		w.logEv(lfEv{kind: lfOpReturn, op: op.idx})
+		w.mu.Lock()
+		op.result = res
+		w.mu.Unlock()
 		var vs []vsched.Violation
 		if op.after != nil {
 			vs = op.after(w, op)
 		}
 		w.mu.Lock()
-		op.result = res
 		op.done = true
 		w.viols = append(w.viols, vs...)
 		w.mu.Unlock()
@@ -527,16 +580,20 @@ func (w *lfWorld) loop(c *vsched.Chooser, maxSteps int, extra func() []lfEvent, 
 			if op.enabled != nil && !op.enabled(w) {
 				continue
 			}
-			if op.touches != nil {
-				blocked := false
-				for _, p := range op.touches(w) {
-					if w.subtreeLockHeld(p) {
-						blocked = true
+			blocked := false
+			for _, n := range op.touches {
+				if strings.HasPrefix(n, "?") { // Shutdown is only called when the target is running or suspended
+					n = n[1:]
+					if p := w.pid(n); p == nil || !(p.IsRunning() || p.IsSuspended()) {
+						continue
 					}
 				}
-				if blocked {
-					continue
+				if w.wouldBlock(n) {
+					blocked = true
 				}
+			}
+			if blocked {
+				continue
 			}
 			op := op
 			evs = append(evs, lfEvent{label: "op:" + op.label, cost: op.cost, fire: func() { w.startOp(op) }})
